@@ -480,6 +480,16 @@ func (vr *variableResolver) resolve(ctx *ExecutionContext) (*Value, error) {
 						}
 					}
 
+					if fnArg.Kind() == reflect.Interface {
+						// The argument's dynamic type must implement the interface the
+						// function asks for, otherwise reflect's Call would panic.
+						argType := reflect.TypeOf(pv.Interface())
+						if (argType == nil && fnArg.NumMethod() > 0) || (argType != nil && !argType.Implements(fnArg)) {
+							return nil, fmt.Errorf("function input argument %d of '%s' must implement %s (not %T)",
+								idx, vr.String(), fnArg.String(), pv.Interface())
+						}
+					}
+
 					if pv.IsNil() {
 						// Workaround to present an interface nil as reflect.Value
 						var empty any = nil
